@@ -15,6 +15,8 @@
 //	loop    the run loop performs a real scan after its one-minute delay, then is cancelled between scans or mid-scan
 //	fault, received, cancel0: see fault.go, received.go
 //	sizelimit  scans of a full memory store with maxkb while deliveries force evictions (sizelimit.go)
+//	assembly   the scanner as server.Services.Start runs it: shutdown requested at any moment of the
+//	        start-up of a full assembly, also one whose listener cannot be opened (assembly.go)
 //
 // Every stream draws its store configuration from pickConf (conf.go): file stores under hostile
 // directory names, memory stores with a size limit.
@@ -51,7 +53,10 @@ func init() {
 			"cancelled at every k-th visit / k-th RemoveMessage, RetentionSleep 20ms), start (period 0; positive period cancelled before first scan), " +
 			"loop (real run-loop scan after the one-minute delay, cancelled between scans or while the scan is parked mid-way), " +
 			"sizelimit (memory store with maxkb 4-32 KiB filled to 85-110%, 1-3 scans while 1-4 clients deliver messages forcing evictions, released at the scan's k-th RemoveMessage; " +
-			"young mail demanded only where the limit provably cannot evict it). Store configurations: half of the file stores under hostile directory names " +
+			"young mail demanded only where the limit provably cannot evict it), " +
+			"assembly (one server.FullAssembly + Services.Start per child process: all listeners healthy and the context cancelled right after Start returned / after 0-400 yields / at ready / after ready, " +
+			"or the address of the SMTP, POP3 or web listener occupied and the context cancelled at Notify() or after 0-400 yields; then SMTP Drain, POP3 Drain as in main.go and RetentionScanner.Join must return; " +
+			"retention disabled or enabled, mem or file). Store configurations: half of the file stores under hostile directory names " +
 			"([ ] \\ * ? { } ~ % $ spaces unicode leading dot/dash, 200-byte component), a third of the memory stores with a roomy maxkb. Non-trivial: a scan that had >=1 expired and >=1 unexpired message " +
 			"(distinct by back end, period class, size buckets, stream-specific step).",
 		Assumptions: []string{
@@ -60,6 +65,7 @@ func init() {
 			"under cancellation only 'no further mailbox is visited', 'DoScan/Start/Join return' and 'no unexpired message is lost' are demanded; partial progress is not",
 			"messages delivered while a scan runs must survive if unexpired and are don't-care if expired; client operations overlapping an add on the logical clock make that message don't-care",
 			"a failing AddMessage of a racing client is counted, not judged (C09)",
+			"assembly stream: only the return of RetentionScanner.Join after cancel is judged; a Drain that does not return is counted and left to C19",
 		},
 		MinObs: func(tier string) map[string]int64 {
 			m := map[string]int64{
@@ -77,10 +83,15 @@ func init() {
 				"sizelimit_cases":                  20, "sizelimit_evictions": 100, "sizelimit_deliveries_overlapping_scan": 40,
 				"sizelimit_young_demanded": 100,
 			}
+			// the scanner as Services.Start runs it (after C12-12): one assembly per child process
+			m["assembly_join_returned:healthy"] = 2
+			m["assembly_join_returned:start-failed"] = 2
 			m["loop_scans_observed"] = 1
 			m["loop_mid_scan_cancels"] = 1
 			if tier == "thorough" {
 				m["loop_scans_observed"] = 2
+				m["assembly_join_returned:healthy"] = 4
+				m["assembly_join_returned:start-failed"] = 4
 				m["loop_mid_scan_cancels"] = 2
 			}
 			return m
@@ -101,6 +112,8 @@ func run(c *fw.Ctx) {
 	c.Cases("received", c.N(120, 2400), func(i int, r *fw.Rand) { runReceived(c, i, r) })
 	c.Cases("cancel0", c.N(24, 400), func(i int, r *fw.Rand) { runCancel0(c, i, r) })
 	c.Cases("sizelimit", c.N(64, 1200), func(i int, r *fw.Rand) { runSizeLimit(c, i, r) })
+	// exactly one full assembly per child process: pkg/server/web is a process singleton (assembly.go)
+	c.Cases("assembly", c.NBatch, func(i int, r *fw.Rand) { runAssembly(c, i, r) })
 	c.Cases("loop", c.N(2, 8), func(i int, r *fw.Rand) { runLoop(c, i, r) })
 }
 
